@@ -22,7 +22,8 @@ func (t *vWatchTSO) Commit(rev uint64) {
 }
 
 func (t *vWatchTSO) Deal() (uint64, error) {
-	zzverif.Yield()
+	zzverif.YieldAt("deal")
+	defer zzverif.YieldAt("deal-done")
 	return t.TSO.Deal()
 }
 
